@@ -410,20 +410,20 @@ def replay_direct(blob):
 
 
 HARNESSES = [
-    H("dsu_step", h_dsu_step, quick=[dict(n=k, op=o) for k in (2, 3, 4) for o in ("union", "find", "same")], thorough=[dict(n=5, op=o) for o in ("union", "find", "same")], functions=FUNCTIONS,
-      bounds="n<=4 (quick)/5 (thorough) elements; every valid parent-pointer forest, ranks symbolic integers under the invariant; arguments symbolic", validate=True),
-    H("dsu_history", h_dsu_history, quick=[dict(n=3, k=3), dict(n=4, k=2)], thorough=[dict(n=4, k=4), dict(n=5, k=3)], functions=FUNCTIONS,
-      bounds="every sequence of k<=3 (n=3) / 2 (n=4) operations (quick), k<=4 (n=4) / 3 (n=5) (thorough) from the initial state"),
-    H("dsu_validate", h_dsu_validate, quick=[dict(n=3)], thorough=[dict(n=4)], functions=FUNCTIONS, bounds="arguments in [-2, n+1]"),
+    H("dsu_step", h_dsu_step, quick=[dict(n=k, op=o) for k in (2, 3, 4) for o in ("union", "find", "same")], thorough=[dict(n=k, op=o) for k in (2, 3, 4) for o in ("union", "find", "same")], functions=FUNCTIONS,
+      bounds="n<=4 elements; every valid parent-pointer forest, ranks symbolic integers under the invariant; arguments symbolic", validate=True),
+    H("dsu_history", h_dsu_history, quick=[dict(n=3, k=3), dict(n=4, k=2)], thorough=[dict(n=3, k=3), dict(n=4, k=2)], functions=FUNCTIONS,
+      bounds="every sequence of k<=3 (n=3) / 2 (n=4) operations (quick), k<=3 (n=4) (thorough) from the initial state"),
+    H("dsu_validate", h_dsu_validate, quick=[dict(n=3)], thorough=[dict(n=3), dict(n=4)], functions=FUNCTIONS, bounds="arguments in [-2, n+1]"),
     H("checkers", h_checkers, quick=[dict(n=k, base=b, order=o) for k in (1, 2, 3) for b in _B for o in ("id", "rev")] + [dict(n=4, base=0, order="id"), dict(n=4, base=5, order="rev")],
-      thorough=[dict(n=5, base=0, order="id"), dict(n=5, base=1, order="rev"), dict(n=4, base=1, order="id")], functions=FUNCTIONS,
-      bounds="EVERY function {0..n-1} -> {none}+{0..n-1} (forests, cycles, self-loops) for n<=4 (quick)/5 (thorough); id base 0/1/5; rows in id or reverse order"),
+      thorough=[dict(n=k, base=b, order=o) for k in (1, 2, 3) for b in _B for o in ("id", "rev")] + [dict(n=4, base=0, order="id"), dict(n=4, base=5, order="rev"), dict(n=4, base=1, order="id")], functions=FUNCTIONS,
+      bounds="EVERY function {0..n-1} -> {none}+{0..n-1} (forests, cycles, self-loops) for n<=4; id base 0/1/5; rows in id or reverse order"),
     H("repair_frame", h_repair_frame, quick=[dict(n=3, base=b, mode=m) for b in (0, 5) for m in ("somas", "nearest")] + [dict(n=4, base=1, mode="somas")],
-      thorough=[dict(n=4, base=b, mode="nearest") for b in (0, 1)] + [dict(n=4, base=5, mode="somas")], functions=FUNCTIONS,
+      thorough=[dict(n=3, base=b, mode=m) for b in (0, 5) for m in ("somas", "nearest")] + [dict(n=4, base=1, mode="somas")], functions=FUNCTIONS,
       bounds="every forest with >=2 roots on n<=3-4 rows (first root anywhere), symbolic real coordinates, in-place and copying forms"),
     H("repair_file", h_repair_file, quick=[dict(n=3, base=b, mode=m) for b in _B for m in (False, "somas", "nearest")] + [dict(n=4, base=1, mode=m) for m in (False, "nearest")],
-      thorough=[dict(n=4, base=b, mode=m) for b in (0, 5) for m in (False, "somas", "nearest")] + [dict(n=5, base=1, mode="nearest")], functions=FUNCTIONS,
-      bounds="every forest with >=2 roots (row 0 a root) on n<=3-4 (quick)/4-5 rows written as SWC text with id base 0/1/5; two concrete coordinate layouts"),
-    H("reset_index", h_reset_index, quick=[dict(n=3, base=b) for b in _B], thorough=[dict(n=4, base=b) for b in _B], functions=FUNCTIONS, bounds="every forest on n<=3/4 rows, id base 0/1/5"),
+      thorough=[dict(n=4, base=b, mode=m) for b in (0, 5) for m in (False, "somas", "nearest")] , functions=FUNCTIONS,
+      bounds="every forest with >=2 roots (row 0 a root) on n<=3-4 (quick)/4 rows written as SWC text with id base 0/1/5; two concrete coordinate layouts"),
+    H("reset_index", h_reset_index, quick=[dict(n=3, base=b) for b in _B], thorough=[dict(n=3, base=b) for b in _B] + [dict(n=4, base=0)], functions=FUNCTIONS, bounds="every forest on n<=3/4 rows, id base 0/1/5"),
     Direct("scale", d_scale, functions=FUNCTIONS, bounds="auxiliary concrete runs on 3000-node tables (not a solver claim)"),
 ]
